@@ -373,6 +373,10 @@ def realise_expr(item):
         # the argument inside both branches of a conditional (and in one branch only)
         s0 = Fr(3, 8)
         e = ufl.conditional(ufl.lt(x[0], float(s0)), 2 * u, 3 * u) + ufl.conditional(ufl.gt(f, 0.5), u, 0 * u) * f
+    elif term == "cconj":
+        # complex-part operators in an expression (they must survive for every complex scalar type)
+        g2 = coef("P1")
+        e = ufl.conj(f) * g2 + ufl.real(g2) + 2 * ufl.imag(f)
     elif term == "fu":
         e = coef("P1") * u
     elif term == "outer":
